@@ -125,6 +125,10 @@ PROGRAMS = {
         ["target", "l", 2], ["add", "l", ["cp", 12, 1.0, 0.0, 0.0]],
         ["phase_shift", 0.5, [0, 1], "digital"], ["target", "l", 0], ["add", "l", ["cp", 12, 1.0, 0.0, 1.0]],
         ["add", "g", ["cp", 16, 1.0, 0.0, 0.0]]]),
+    # initial_target given to a Global channel (accepted and ignored by declare_channel)
+    "global_init_target": dict(device="mock", prog=[
+        ["declare", "g", "rydberg_global", "q1"], ["declare", "l", "raman_local", "q0"],
+        ["add", "g", ["cp", 20, S("a0", lo=0, hi=5), 0.0, 0.25]], ["add", "l", ["cp", 12, 1.0, 0.0, 0.0]]]),
     # interpolated waveforms with a non-default interpolator and interpolator options (values concrete: scipy)
     "interp_opts": dict(device="mock", prog=[
         ["declare", "g", "rydberg_global"],
